@@ -81,6 +81,33 @@ CHECKS.update({
  "C20": bounded_only("histories of read/insert/derivations are run on the real DB and on a reference model that shares and copies set objects as "
         "documented; every live collection is compared after every step; the recorded findings are re-demonstrated by their specific histories;",
         "DESIGN.md §5 C20"),
+ "C02": bounded_only("generated paragraphs and multi-paragraph documents are dumped and re-parsed in six input forms x {plain, clearsigned} x "
+        "{comments interleaved or not}, through the constructor and iter_paragraphs;", "DESIGN.md §5 C02"),
+ "C04": bounded_only("texts generated from the deb-changelog(5) grammar with known components are parsed strictly with warnings as errors; "
+        "str() must be byte-identical and the blocks must expose the written components;", "DESIGN.md §5 C04"),
+ "C07": bounded_only(".deb files assembled in memory over 5x5 compressions, member orders, script subsets, md5sums with spaces in names, binary "
+        "contents, dot files are read back in three spellings; structurally defective member sets must raise DebError;", "DESIGN.md §5 C07",
+        "tarfile and the compression codecs are external libraries"),
+ "C08": dict(bounded_only("", "DESIGN.md §5 C08"),
+        text="The anti-drift lemmas between the value validator and the parser's patterns are PROVED for all lines of the stated character "
+             "domain by SMT on the real pattern objects (an accepted continuation line never matches _single/_multi/_gpgre/the empty-line "
+             "pattern, a non-blank one matches _multidata and never the whitespace paragraph separator). The composition validator -> dump "
+             "-> parser is decided by a bounded stand-in: every value of length <= 5/6 over {a, ':', '#', space, TAB, CR, LF}.",
+        technique="regex-to-SMT language lemmas on the real patterns + bounded stand-in (exhaustive short values)"),
+ "C11": bounded_only("generated whitespace- and comma-separated list fields (layouts, line breaks, comment lines, trailing separators) x "
+        "histories of append/remove/replace/value-reference edits are compared with an independent split of the field text, a list model and "
+        "byte spans of the other fields;", "DESIGN.md §5 C11"),
+ "C12": bounded_only("for every class with structured fields x subsets of those fields x record lists, the dump must be exactly the documented "
+        "text (size column aligned to 16 / longest present) and re-parse to the same records;", "DESIGN.md §5 C12"),
+ "C13": bounded_only("generated relation structures covering every combination of the optional parts and up to 4 restriction groups are formatted, "
+        "parsed back (no warning allowed) and re-formatted;", "DESIGN.md §5 C13"),
+ "C15": bounded_only("well-formed changelogs mutated by inserting/deleting/duplicating lines from a pool of 26 line kinds, with allow_empty_author on "
+        "and off: lenient never raises, strict raises iff lenient warns, str() is a normal form; plus editing histories;", "DESIGN.md §5 C15"),
+ "C17": bounded_only("the multiline codec is checked on all line lists of length <= 3/4 over 14 line kinds, and seeded copyright documents are "
+        "dumped, strictly re-parsed and re-dumped;", "DESIGN.md §5 C17"),
+ "C19": bounded_only("real file:// mirrors for seeded histories (SHA1 index, gz, ed patches from an independent differ) with the local copy in every "
+        "state, unusable indexes, garbled/truncated patches and injected open / i-th write / rename failures;", "DESIGN.md §5 C19",
+        "fault injection patches module attributes from /verif, not /repo"),
 })
 
 NOT_YET = "check not built yet in this revision of /verif (see DESIGN.md §7 for the order of construction)"
